@@ -1330,7 +1330,13 @@ where
       }
     }
 
-    self.visit_group_entry(&gr.entry)
+    let base_error_count = self.errors.len();
+    self.visit_group_entry(&gr.entry)?;
+    if self.errors.len() == base_error_count {
+      self.errors.truncate(error_count);
+    }
+
+    Ok(())
   }
 
   fn visit_type(&mut self, t: &Type<'a>) -> visitor::Result<Error<T>> {
@@ -4398,8 +4404,14 @@ where
       }
     }
 
+    // The alternates added with //= did not match: the base definition decides,
+    // and when it matches the errors of the failed alternates are dropped
+    let base_error_count = self.errors.len();
     walk_type_groupname_entry(self, entry)?;
     self.state.type_group_name_entry = None;
+    if self.errors.len() == base_error_count {
+      self.errors.truncate(error_count);
+    }
 
     Ok(())
   }
